@@ -5,7 +5,12 @@ GEN = []
 LEAN_TARGETS = ["MagpyVerif.Props.C03"]
 PROPS = ["MagpyVerif.Props.C03"]
 NOT_SHOWN = {
- "03": ["full getBH pipeline covariance with Sensor observers (proved for position observers; sensors are C04)"],
+ "03": ["covariance is proved for the pipeline tensor `Model/Level2.tensor` (covariance_end_to_end: sources and Sensors moved together; "
+        "covariance_positions_end_to_end: sources and position observers moved, vectors rotate by Q), i.e. before pixel_agg / sumup / squeeze; "
+        "that those three commute with the rotation is not stated here (sumup and pixel_agg='sum' are sums, min/max do NOT commute with a rotation of the vectors)",
+        "the theorems are over an abstract Mathlib `Group G` acting by a `DistribMulAction` on `V`; that scipy Rotation, and the integer matrices the driver "
+        "computes with (`M3 Int`, inverse = transpose, NOT a group as a type), satisfy the group-action laws on the rotations actually used is an assumption "
+        "(no instance is proved; the level2 stream exercises the octahedral group only)"],
  "04": ["pixel_agg reductions other than sum/min/max (mean, median, std, ...) are not modelled; the theorem holds for any reduction function of the pixel list, the stream exercises sum/min/max"],
  "05": ["linearity of each class's kernel in its excitation (kernel-level, see C01/C02); proved here: the marshalling preserves it for any F"],
  "06": ["batch-level control flow inside kernels (rowwise_c: trimesh grouping, segment early return, cel n<10) — kernel model pending",
